@@ -177,6 +177,12 @@ def ev(n, env, funcs=None):
             return a // b
         if t is ast.Div:
             return a / b
+        if t is ast.BitAnd and isinstance(a, bool) and isinstance(b, bool):
+            return a and b
+        if t is ast.BitOr and isinstance(a, bool) and isinstance(b, bool):
+            return a or b
+        if t is ast.Pow:
+            return a ** b
     if isinstance(n, ast.IfExp):
         return ev(n.body, env, funcs) if ev(n.test, env, funcs) else ev(n.orelse, env, funcs)
     if isinstance(n, ast.Tuple):
